@@ -6,6 +6,7 @@ import ExponaxModel.Proofs.ExactLinearModes
 import ExponaxModel.Proofs.ExactLinearIndex
 import ExponaxModel.Proofs.SpectralLayoutEq
 import ExponaxModel.Proofs.SpectralOpsEq
+import ExponaxModel.Proofs.SmallGapsCoef
 /-
 C04 — grid, FFT and Fourier-coefficient conventions are mutually consistent.
 Index / layout part (all `N`, no bound).  The DFT part (round trip, single-mode
@@ -245,6 +246,59 @@ theorem C04_generated_fft_ifft (C D N : ℕ) (hD : 1 ≤ D) (x : Nonlin.MC ℂ) 
       Gen.SpectralOps.ifft [C] D N (some D) none x =
         (if 2 ≤ D then some (Nonlin.tabC C (fun i => irfftnM D N (x.getD i #[]))) else none) :=
   ⟨(fft_eq C D N hD x).2, (ifft_eq C D N hD x).2, ifft_infer_num_points C D N hD x⟩
+
+
+
+/-! ### composed coefficient extraction: the regenerated `get_fourier_coefficients(..., "coef_extraction")` of the sampled
+mode a·cos(κ·x + φ) is a·e^{iφ}·2^{n−1} at the stored index of κ (n = number of non-zero components of κ: exactly a·e^{iφ}
+for axis-aligned waves, a·cos φ for κ = 0) and 0 at every other stored mode; the per-axis scaling product makes the factor
+2^{n−1} for oblique waves (explicit 2-D instance) -/
+
+open Exponax.SmallGaps in
+theorem C04_coefficient_extraction_of_a_mode :
+    ∀ [inst : Gen.SpectralOps.HasRoundTo ℂ] (D N : ℕ),
+      1 ≤ D →
+        0 < N →
+          ∀ (κ : List ℤ),
+            ExactLinear.BelowNyquist D N κ →
+              ∀ (a φ : ℝ),
+                Gen.SpectralOps.get_fourier_coefficients D N 1 (some "coef_extraction") none "ij"
+                    #[ExactLinear.modeField D N κ a φ] =
+                  some
+                    (Nonlin.tab2 1 (Layout.numModes D N) fun x h ↦
+                      (if Layout.wnFlat D N h = κ then ↑a / 2 * 2 ^ nzCount D κ * Complex.exp (↑φ * Complex.I) else 0) +
+                        if Layout.wnFlat D N h = ExactLinear.negK κ then
+                          ↑a / 2 * 2 ^ nzCount D κ * Complex.exp (-(↑φ * Complex.I))
+                        else 0) :=
+  @Exponax.SmallGaps.get_fourier_coefficients_modeField
+
+open Exponax.SmallGaps in
+theorem C04_coefficient_extraction_axis_aligned :
+    ∀ [inst : Gen.SpectralOps.HasRoundTo ℂ] (D N : ℕ),
+      1 ≤ D →
+        0 < N →
+          ∀ (κ : List ℤ),
+            ExactLinear.BelowNyquist D N κ →
+              nzCount D κ = 1 →
+                ∀ (a φ : ℝ),
+                  ∀ h < Layout.numModes D N,
+                    Layout.wnFlat D N h = κ →
+                      ∃ out,
+                        Gen.SpectralOps.get_fourier_coefficients D N 1 (some "coef_extraction") none "ij"
+                              #[ExactLinear.modeField D N κ a φ] =
+                            some out ∧
+                          Nonlin.at2 out 0 h = ↑a * Complex.exp (↑φ * Complex.I) :=
+  @Exponax.SmallGaps.coef_extraction_axis_aligned
+
+open Exponax.SmallGaps in
+theorem C04_coefficient_extraction_oblique_factor :
+    ∀ [inst : Gen.SpectralOps.HasRoundTo ℂ] (a φ : ℝ),
+      ∃ out,
+        Gen.SpectralOps.get_fourier_coefficients 2 8 1 (some "coef_extraction") none "ij"
+              #[ExactLinear.modeField 2 8 [1, 1] a φ] =
+            some out ∧
+          Nonlin.at2 out 0 6 = 2 * (↑a * Complex.exp (↑φ * Complex.I)) :=
+  @Exponax.SmallGaps.coef_extraction_oblique_2d
 
 
 end Exponax
